@@ -432,8 +432,8 @@ func ruleB4(c *Ctx) {
 			arm := ifi.Block().Succs[0]
 			toks := tokenNames(c.P)
 			opName := "?"
-			for _, pc := range pathConds(ifi.Block()) {
-				if bo, ok := pc.If.Cond.(*ssa.BinOp); ok && bo.Op == token.EQL && pc.Branch && len(fn.Params) > 1 && bo.X == fn.Params[1] {
+			for _, pf := range pathFacts(ifi.Block()) {
+				if bo, ok := pf.Cond.(*ssa.BinOp); ok && bo.Op == token.EQL && pf.Truth && len(fn.Params) > 1 && bo.X == fn.Params[1] {
 					if k, isK := constInt(bo.Y); isK {
 						opName = toks[k]
 					}
